@@ -141,8 +141,24 @@ def rejections(ctx):
             x = look(t[3])
             if x[0] == "field" and x[1][0] == "downcast" and look(x[1][1]) == ("arg", 2):
                 return "length>=max"
+        if t[0] == "bin" and t[1] == "Eq" and tv and const_of(t[3]) == 0 and is_call(look(t[2]), "saturating_sub"):
+            # `limit.saturating_sub(bytes.len()) == 0` is `bytes.len() >= limit`
+            a_, b_ = look(look(t[2])[2][0]), look(look(t[2])[2][1])
+            if a_[0] == "field" and a_[1][0] == "downcast" and look(a_[1][1]) == ("arg", 2) and is_call(b_, "len") and is_arg(b_[2][0]):
+                return "length>=max"
         if option_test(t, c, first_crlf) == "none":
             return "no-crlf"
+        if t[0] == "bin" and t[1] == "Lt" and rl_end(t[2]) and is_call(look(t[3]), "request::RequestLine::min_len") and tv:
+            return "short-line"         # the length of bytes[..end of line] is that end
+        # `body.len().checked_sub(content_length)`: None = shorter than announced, Some(n != 0) = longer
+        def body_minus_length(y):
+            y = look(y)
+            return is_call(y, "checked_sub") and len(y[2]) == 2 and is_call(look(y[2][0]), "len") and is_call(look(strip_cast(y[2][1])), "common::headers::Headers::content_length")
+        if option_test(t, c, body_minus_length) == "none":
+            return "body-shorter-than-length"
+        x_ = look(t)
+        if payload_of(x_) is not None and x_[0] != "bin" and body_minus_length(payload_of(x_)) and c[0] == "ne" and 0 in c[1]:
+            return "body-length-mismatch"
         if t[0] == "bin" and t[1] == "Lt" and is_call(look(t[2]), "len") and rl_slice(look(t[2])[2][0]) and is_call(look(t[3]), "request::RequestLine::min_len") and tv:
             return "short-line"
         if result_test(t, c, lambda src: is_call(src, "request::RequestLine::try_from") and rl_slice(src[2][0])) == "err":
